@@ -146,3 +146,21 @@ def hull_classify(p, hull):
         if worst is None or dist < worst:
             worst = dist
     return state, worst
+
+
+def held_prediction(est, qe, qn, what):
+    """A prediction is a value: predicting again at as many other points must not change the arrays handed out before."""
+    import warnings
+
+    import numpy as np
+
+    with warnings.catch_warnings():
+        warnings.simplefilter("ignore")
+        first = est.predict((qe, qn))
+        first = first if isinstance(first, tuple) else (first,)
+        kept = [np.array(p, copy=True) for p in first]
+        est.predict((np.asarray(qe, dtype="float64")[::-1] * 1.0009765625 + 0.3125, np.asarray(qn, dtype="float64")[::-1] - 0.4375))
+    for k, (p, c) in enumerate(zip(first, kept)):
+        if not np.array_equal(np.asarray(p), c, equal_nan=True):
+            raise Violation("%s: the prediction at %d points (component %d) changed its contents after predict was called again at as many other points (results of separate calls share memory)"
+                            % (what, np.size(qe), k))
